@@ -33,7 +33,16 @@ def main(argv):
         tier = "quick"
     mod = importlib.import_module("vp." + prop.lower())
     try:
-        core.gen_consts()
+        try:
+            core.gen_consts()
+        except Exception as e:
+            from .gen_consts import TieError
+            if not isinstance(e, TieError) or not os.path.exists(os.path.join(core.COQ, "Generated", "Consts.v")):
+                raise
+            # the translator cannot read a constant / table in its expected shape: the model keeps the
+            # constants of the last successful translation, the obligation stays undischarged, and the
+            # ties and the reference search below look for a concrete input on which the property fails
+            core.PRE_BROKEN.append("tie:translator " + str(e))
         return mod.run(tier, seed, replay=replay)
     except core.BuildError as e:
         # a broken build of the machinery or of /repo with hooks: the property is not shown
